@@ -592,6 +592,140 @@ def canon_b(b):
     return b
 
 
+# ------------------------------------------------------------------ reduction modulo hypothesis equalities
+def _mkey(m):
+    """admissible lexicographic monomial order with older atoms (smaller id) ranked higher"""
+    return tuple(-a for a in m)
+
+
+def _divides(lm, m):
+    """multiset inclusion of sorted tuples; returns the quotient monomial or None"""
+    if len(lm) > len(m):
+        return None
+    q = []
+    i = 0
+    for a in m:
+        if i < len(lm) and a == lm[i]:
+            i += 1
+        else:
+            q.append(a)
+    if i < len(lm):
+        return None
+    return tuple(q)
+
+
+def clear_inverses(p, limit=6):
+    """multiply an (= 0) polynomial by the bases of the inverse atoms it mentions (bases are assumed non-zero
+    wherever an inverse was formed), so that a*inv(a) cancels and hypotheses/goals become inverse-free"""
+    for _ in range(limit):
+        ia = None
+        for m in p:
+            for a in m:
+                if a in _inv_base:
+                    ia = a
+                    break
+            if ia is not None:
+                break
+        if ia is None:
+            return p
+        p = _pmul(p, {(_inv_base[ia],): 1})
+    return p
+
+
+class Rules:
+    """rewrite system  LM(h) -> -(h - lc*LM)/lc  from equalities h = 0"""
+
+    def __init__(self, hyps):
+        self.rules = []     # (lm, tail poly scaled)
+        self.by_first = {}
+        for h in hyps:
+            if h.op != "eq0":
+                continue
+            try:
+                p = clear_inverses(poly(h.args[0]))
+            except PolyOverflow:
+                continue
+            if not p:
+                continue
+            lm = max(p, key=_mkey)
+            if not lm:
+                continue
+            lc = p[lm]
+            tail = {m: _num(Fraction(-c) / lc) for m, c in p.items() if m != lm}
+            self.rules.append((lm, tail))
+        for r in self.rules:
+            self.by_first.setdefault(r[0][0], []).append(r)
+
+    def reduce(self, p, max_steps=200000):
+        if not self.rules:
+            return p
+        work = dict(p)
+        out = {}
+        steps = 0
+        while work:
+            m = max(work, key=_mkey)
+            c = work.pop(m)
+            hit = None
+            for a in set(m):
+                for lm, tail in self.by_first.get(a, ()):
+                    q = _divides(lm, m)
+                    if q is not None:
+                        hit = (q, tail)
+                        break
+                if hit:
+                    break
+            if hit is None:
+                v = out.get(m, 0) + c
+                if v == 0:
+                    out.pop(m, None)
+                else:
+                    out[m] = v
+                continue
+            steps += 1
+            if steps > max_steps:
+                raise PolyOverflow()
+            q, tail = hit
+            for tm, tc in tail.items():
+                mm = tuple(sorted(q + tm)) if q and tm else (q or tm)
+                fx = _mono_fix(mm) if (q and tm) else None
+                if fx is None:
+                    v = work.get(mm, 0) + c * tc
+                    if v == 0:
+                        work.pop(mm, None)
+                    else:
+                        work[mm] = v
+                else:
+                    for m2, c2 in fx.items():
+                        v = work.get(m2, 0) + c * tc * c2
+                        if v == 0:
+                            work.pop(m2, None)
+                        else:
+                            work[m2] = v
+        return out
+
+    def reduce_b(self, b):
+        """rewrite the arithmetic atoms of a boolean term"""
+        op = b.op
+        if op in ("le0", "lt0", "eq0"):
+            try:
+                p = poly(b.args[0])
+                if op == "eq0":
+                    p = clear_inverses(p)
+                r = self.reduce(p)
+            except PolyOverflow:
+                return b
+            if r is p or r == p:
+                return b
+            return _rel(op, from_poly(r, b.args[0].sort))
+        if op == "and":
+            return band(*[self.reduce_b(x) for x in b.args])
+        if op == "or":
+            return bor(*[self.reduce_b(x) for x in b.args])
+        if op == "not":
+            return bnot(self.reduce_b(b.args[0]))
+        return b
+
+
 # ------------------------------------------------------------------ evaluation / printing
 
 def evaluate(e, env, memo=None):
